@@ -195,7 +195,16 @@ def static_writes(ex, callee, ins, fn=None):
             E = ex.m.elem(t)
             W |= {ex.aname(E, p, s) for (p, s, tk) in ex.m.layout(E)}
     elif callee.startswith('encoding/json.Unmarshal'):
-        W |= {'?json'}
+        # json.Unmarshal(data, &x): the target arrives boxed; its type is that of the value boxed just before
+        T = None
+        if fn is not None and len(ins['args']) >= 3 and ins['args'][2]['k'] == 'reg':
+            d = fn.defs().get(ins['args'][2]['n'])
+            if d is not None and d[2]['op'] == 'MakeInterface' and ex.m.kind(d[2]['args'][0]['t']) == 'pointer':
+                T = ex.m.elem(d[2]['args'][0]['t'])
+        if T is not None:
+            W |= {ex.hname(T, p2, s2) for (p2, s2, tk) in ex.m.layout(T)}
+        else:
+            W |= {'?json'}
     return W
 
 
@@ -659,6 +668,31 @@ def strings_Cut(ex, st, frame, ins, args):
     return ex.tuple_val(ins['t'], [Val('string', [bf]), Val('string', [af]), Val('bool', [fd])])
 
 
+def json_Unmarshal(ex, st, frame, ins, args):
+    """json.Unmarshal(data, &x): x is overwritten with an arbitrary well-typed value (what the bytes decode to is
+    not modelled); everything the decoder allocates is new"""
+    m = ex.m
+    v = z3.simplify(args[1].leaves[0])
+    c = None
+    if z3.is_app(v) and v.decl().name().startswith('mk') and v.decl().name()[2:].isdigit():
+        c = m.any_types[int(v.decl().name()[2:])]
+    if c is None or m.kind(c) != 'pointer':
+        raise Unsupported('json.Unmarshal into a target whose type is not known statically')
+    T = m.elem(c)
+    ref = v.arg(0)
+    na = m.fresh('alloc_json', m.Int)
+    st.assume(na >= st.alloc)
+    st.alloc = na
+    nv = m.fresh_val(T, 'json')
+    ex.assume_refs(st, nv)
+    ex.type_invariant(st, nv)
+    ex.store(st, frame, Ptr('obj', T, '', ref), nv, T)
+    ex.trusted.add('library contract: encoding/json.Unmarshal overwrites its target with an arbitrary value of its type')
+    errid = m.fresh('json_err', m.Int)
+    isok = m.fresh('json_ok', m.Bool)
+    return Val('error', [z3.If(isok, m.Any.nil, m.Any.other(z3.IntVal(2), errid))])
+
+
 def strings_Index(ex, st, frame, ins, args):
     m = ex.m
     s, sub = args[0].leaves[0], args[1].leaves[0]
@@ -717,6 +751,10 @@ def io_event(kind):
 
 def os_Exit(ex, st, frame, ins, args):
     ex.events_add(st, 'exit', args, ins)
+    c = ex.extern_contract('os.Exit')
+    if c is not None:
+        # the conditions under which the program may stop here (checked like a precondition)
+        ex.call_extern_contract(st, frame, ins, 'os.Exit', c, args)
     ex.exit_paths(st, frame, args, ins)
     return DIVERGES
 
@@ -911,6 +949,7 @@ TABLE = {
     'strings.Replace': str_uf('sreplace', 4),
     'strings.Repeat': strings_Repeat,
     'strings.Index': strings_Index,
+    'encoding/json.Unmarshal': json_Unmarshal,
     'strings.Cut': strings_Cut,
     'strconv.Atoi': strconv_Atoi,
     'strconv.ParseUint': strconv_ParseUint,
